@@ -18,6 +18,9 @@ package main
 //@ func parseIdentity(s) (id, err)
 //@   call plugin.NewIdentity#1 requires arg0 == old(s) && hasprefix(arg0, "AGE-PLUGIN-")                                  [C17]
 //@   call age.ParseX25519Identity#1 requires arg0 == old(s)                                                            [C17 C18]
+// the line that fits no identity type is, more often than not, a secret key with a typo in
+// its prefix: the error names no operand at all (C18: messages never reproduce the secret)
+//@   call fmt.Errorf#1 requires len(arg1) == 0                                                                      [C18]
 //@   ensures#nilxor err == nil ==> id != nil                                                                        [C14 C18]
 
 //@ func parseIdentities(f) (ids, err)
